@@ -176,12 +176,23 @@ class LaserMachine(Machine):
             if u < 0.42:
                 a = rng.choice(focus)
                 ops.append({"op": "set", "attr": a, "value": gen_value(rng, a)})
-            elif u < 0.50:
+            elif u < 0.46:
+                # exactly the current value of a sibling attribute (an elliptical profile made circular, mean := min, ...)
+                a = rng.choice(focus)
+                sib = {"stddev_x": "stddev_y", "stddev_y": "stddev_x", "laser_length": "laser_radius", "laser_radius": "laser_length",
+                       "mean_z": "laser_length", "waist_z": "laser_length", "mean": "min_wavelength", "stddev": "stddev",
+                       "pulse_energy": "pulse_energy"}.get(a)
+                if sib and sib in attrs:
+                    ops.append({"op": "set", "attr": a, "from": sib})
+            elif u < 0.48 and not is_profile:
+                a = rng.choice(focus)
+                ops.append({"op": "clone.set", "attr": a, "value": gen_value(rng, a)})
+            elif u < 0.54:
                 a = rng.choice(focus)
                 v = gen_invalid(rng, a)
                 if v is not None:
                     ops.append({"op": "set", "attr": a, "value": v, "invalid": True})
-            elif u < 0.55 and is_profile:
+            elif u < 0.58 and is_profile:
                 v = [round(rng.uniform(-1, 1), 4) for _ in range(3)]
                 if sum(abs(c) for c in v) > 0.1:
                     ops.append({"op": "polarize", "v": v})
@@ -454,6 +465,10 @@ class LaserMachine(Machine):
         if k == "set" or k == "polarize":
             if c.read_since_set:
                 c.set_after_read = True
+            if k == "set" and "from" in op:
+                if op["from"] not in c.spec or op["attr"] not in c.spec:
+                    return "noop"
+                op = dict(op, value=c.spec[op["from"]])
             try:
                 if k == "set":
                     setattr(c.obj, op["attr"], op["value"])
@@ -517,6 +532,28 @@ class LaserMachine(Machine):
             del old
             self._laser_check(c, env)
             env.event(k, "ok", "keep" if op.get("keep") else "drop")
+        elif k == "clone.set":
+            # a shallow copy of the spectrum goes its own way: the original must not follow (and vice versa)
+            import copy as _copy
+            if c.is_profile:
+                return "noop"
+            a = op["attr"]
+            if a not in c.spec:
+                return "noop"
+            v = op["value"]
+            clone = _copy.copy(c.obj)
+            cspec = dict(c.spec)
+            try:
+                setattr(clone, a, v)
+                cspec[a] = v
+            except Exception:
+                for aa, vv in self._getters(c, clone, c.kind).items():
+                    cspec[aa] = vv
+            self._twin_compare(c, c.obj, c.kind, c.spec, env, who="original after its shallow copy was changed")
+            self._twin_compare(c, clone, c.kind, cspec, env, who="shallow copy")
+            c.clones = (getattr(c, "clones", []) + [(clone, cspec)])[-2:]
+            env.probe("shallow_copy_mutated")
+            env.event(k, "ok", a)
         elif k == "laser.reassign":
             if c.laser is None:
                 return "noop"
